@@ -258,6 +258,7 @@ func checkC03(p *Program, r *Report) {
 		}
 	}
 	c03BodyLengthFlow(p, r)
+	fullReads(p, r, "full-reads", "frame", "primitive", "message", "datatype", "compression/lz4", "compression/snappy")
 	c05RawCount(p, r) // raw bodies are consumed by exactly header.BodyLength bytes (shared with C05)
 	c03DecompressConsumes(p, r)
 	c03LimitReaderContext(p, r)
